@@ -16,15 +16,16 @@ Record ctree := mkTree {
   modc : nat;
   next_id : N }.
 
-Definition MIN_CAPACITY : nat := 4.
+Definition MIN_CAPACITY : Z := 4%Z.
 Definition DEFAULT_CAPACITY : nat := 8.
-Definition UINT16_MAX : N := 65535%N.
+Definition UINT16_MAX : Z := 65535%Z.
 
-(* BPlusTree_init: None = ValueError *)
-Definition tree_init (capacity : nat) : option ctree :=
-  if Nat.ltb capacity MIN_CAPACITY then None
-  else if N.ltb UINT16_MAX (N.of_nat capacity) then None
-  else Some (mkTree (node_create 1%N NLeaf capacity) 1%N capacity 0 0 2%N).
+(* BPlusTree_init(capacity : C int): None = ValueError *)
+Definition tree_init (capacity : Z) : option ctree :=
+  if Z.ltb capacity MIN_CAPACITY then None
+  else if Z.ltb UINT16_MAX capacity then None
+  else let c := Z.to_nat capacity in
+       Some (mkTree (node_create 1%N NLeaf c) 1%N c 0 0 2%N).
 
 (* Fuel for every recursive function of this file.  Nodes are never freed before the
    tree dies and every node_create consumes one address, so [next_id - 1] is the number
